@@ -56,6 +56,7 @@ FreeC17Clauses(rec) ==
   \cup If(Len(rec.missing) # 0 \/ rec.finalTail = 0 \/ rec.finalTail > rec.head, "C17_gap_free_chain_after_racing_tail_delete")
   \cup If(rec.finalTail # rec.tailWant, "C17_tail_is_where_the_last_successful_delete_left_it")
   \cup If(rec.head # rec.headWant, "C17_store_equals_a_sequential_execution_of_the_same_appends")
+  \cup If(rec.tailBad # 0, "C17_gap_free_chain_after_racing_tail_delete")
 
 Kind(rec) == IF "kind" \in DOMAIN rec THEN rec.kind ELSE ""
 Clauses(rec) ==
